@@ -38,11 +38,19 @@ def scenario(rng, k):
             steps.append(st)
         elif r < 0.75 and have_arch:
             steps.append({"cmd": "restore", "argv": ["restore", "../A.tar.gz"], "archive": "../A.tar.gz", "clock": clock})
+            if rng.random() < 0.5:
+                # the same archive again: every version in it is recorded by now, the restore must fail and touch nothing
+                steps.append({"cmd": "restore", "argv": ["restore", "../A.tar.gz"], "archive": "../A.tar.gz", "clock": clock,
+                              "defect": "none"})
             have_arch = False
         elif r < 0.9:
             steps.append({"cmd": "gc", "argv": ["gc"], "clock": clock})
         else:
             steps.append(G.run_step(rng, clock, again=False, p_fail=0.3))
+    if rng.random() < 0.3:
+        # archive what is recorded now and restore it straight back into the originating project
+        steps.append({"cmd": "archive", "argv": ["archive", "-o", "../Z.tar.gz"], "out": "../Z.tar.gz", "sel": {}})
+        steps.append({"cmd": "restore", "argv": ["restore", "../Z.tar.gz"], "archive": "../Z.tar.gz", "if_exists": "../Z.tar.gz"})
     return {"project": proj, "steps": steps, "tag": k}
 
 
